@@ -9,10 +9,127 @@ GEN_FUNCS = ["solver._eval_constraint", "solver._eval_pt", "solver._eval_cost"]
 LEVEL_TEXT = ("Theorems (Mathlib convexity/calculus) with the row costs and forces taken from `_eval_constraint` as regenerated from solver.py on every run: each scalar row cost (quadratic, friction "
               "Huber-like, one-sided quadratic) is convex and force = -cost'; the Gauss cost c(a) = 1/2 (a-a0)^T M (a-a0) + sum_i s_i((J a - aref)_i) is convex for PSD M; its gradient is "
               "M(a-a0) - J^T f = M a - qfrc_smooth - J^T f (the solver's gradient); a zero gradient is a global minimiser and a small gradient bounds the suboptimality; the line-search polynomial "
-              "functions are value/derivative/second derivative. NOT proved: that Newton/CG reach the tolerance. On the real code an independent float64 KKT residual of the returned qacc is "
-              "computed from M, J, aref, D and compared with mujoco.mj_forward.")
-LEVEL_NOTE = "C06_partial: elliptic-cone block (jointly convex, not a sum of row costs), convergence of the iteration, incremental Hessian bookkeeping. Trusted: Lean kernel + Mathlib, tier-A translator."
-ASSUMPTIONS = ["solver tolerance 1e-10 / 100 iterations in the oracle so that the residual reflects correctness rather than early stopping"]
+              "functions are value/derivative/second derivative. NOT proved: that Newton/CG reach the tolerance. On the real code: qacc vs mujoco.mj_forward; an independent float64 KKT residual of the "
+              "returned qacc computed from M, J (dense or sparse storage), aref, D; qfrc_constraint = J^T efc_force; independence of the solution from the solver's starting point (qacc_warmstart zero / "
+              "near / far / warmstart disabled; worlds of one batch differing only in it). Besides random small trees, a size sweep puts a model in every host-side size regime of the solver (nv <= 32, "
+              "33..50, 51..59, 60 dense; > 32 AUTO/sparse; > 60 sparse: thread partition of a constraint row, fused/unfused jv, plain/blocked Cholesky, padding) each run, all dofs constrained.")
+LEVEL_NOTE = ("C06_partial: elliptic-cone block (jointly convex, not a sum of row costs), convergence of the iteration, incremental Hessian bookkeeping. The host-side launch geometry of solver.py (threads per "
+              "constraint row, dofs per thread, tile sizes as functions of nv) is NOT in the Lean model: Gen/Host.lean records launch dims as source text only, so these are covered by the size sweep of the "
+              "oracle, not by a theorem. Trusted: Lean kernel + Mathlib, tier-A translator.")
+ASSUMPTIONS = ["solver tolerance 1e-10 / 100 iterations (200 in the size sweep) in the oracle so that the residual reflects correctness rather than early stopping",
+               "size sweep scenes use sphere-plane contacts and limited joints with friction loss only (contact sets identical to MuJoCo's, so every sweep case is compared with mj_forward)"]
+
+
+def _dense_J(m, d, w, n, nv):
+  """row-major float64 copy of world w's constraint Jacobian, from dense or sparse storage"""
+  if not m.is_sparse:
+    return d.efc.J.numpy()[w][:n, :nv].astype(np.float64)
+  J = np.zeros((n, nv))
+  rn, ra = d.efc.J_rownnz.numpy()[w], d.efc.J_rowadr.numpy()[w]
+  ci, Jv = d.efc.J_colind.numpy()[w].reshape(-1), d.efc.J.numpy()[w].reshape(-1)
+  for r in range(n):
+    a, k = int(ra[r]), int(rn[r])
+    J[r, ci[a:a + k]] = Jv[a:a + k]
+  return J
+
+
+def _mass_matrix(mjm, mjd):
+  import mujoco
+  M = np.zeros((mjm.nv, mjm.nv))
+  for k in range(mjm.nv):
+    e = np.zeros(mjm.nv); e[k] = 1
+    col = np.zeros(mjm.nv); mujoco.mj_mulM(mjm, mjd, col, e); M[:, k] = col
+  return M
+
+
+def _world_contact_ids(d, w):
+  n = int(min(d.nacon.numpy()[0], d.naconmax))
+  return np.nonzero(d.contact.worldid.numpy()[:n] == w)[0]
+
+
+def _judge(acc, mjm, mjd, m, d, w, cone, desc, replay, M=None):
+  """judges world w's solution of a finished mjw.forward: (1) against mujoco.mj_forward's qacc (mjd, same state) when the two
+  optimisation problems are the same, (2) pyramidal: float64 KKT residual of the Gauss cost built from mujoco_warp's own J, aref, D
+  (dense or sparse storage) and the row force law, (3) reported forces == implied forces, (4) qfrc_constraint == J^T efc_force.
+  Returns qacc (float64) for cross-world comparisons."""
+  qacc = d.qacc.numpy()[w].astype(np.float64)
+  ref = mjd.qacc
+  scale = 1 + np.abs(ref).max()
+  ids = _world_contact_ids(d, w)
+  same_contacts = len(ids) == int(mjd.ncon)
+  same_frames = True
+  if same_contacts and mjd.ncon:
+    # the tangent axes of a contact frame are a free choice (only the normal is geometry); a pyramidal cone is not rotation
+    # invariant about the normal, so a different choice of tangents is a (slightly) different, equally valid problem
+    fw = d.contact.frame.numpy()[ids].reshape(-1, 9)
+    fm = np.array([c.frame for c in mjd.contact])
+    order_w = np.lexsort(d.contact.pos.numpy()[ids].T.round(5))
+    order_m = np.lexsort(np.array([c.pos for c in mjd.contact]).T.round(5))
+    same_frames = bool(np.allclose(fw[order_w], fm[order_m], atol=2e-3))
+  if not same_contacts:
+    # a different contact SET (multi-contact CCD pairs: property C04) is a different optimisation problem; the KKT residual
+    # below still judges the solver on mujoco_warp's own problem
+    acc.hit("contact-set-differs:mujoco-comparison-skipped")
+  elif not same_frames and cone == "pyramidal":
+    acc.hit("tangent-frames-differ:mujoco-comparison-skipped")
+  else:
+    acc.hit("mujoco-compared")
+    if not np.allclose(qacc, ref, rtol=5e-3, atol=5e-3 * scale):
+      acc.find(f"qacc differs from mj_forward (max |d| {np.abs(qacc - ref).max():.3g}; {desc})", "solver.solve", "qacc-vs-mujoco", **replay)
+  n = int(d.nefc.numpy()[w])
+  if n:
+    J = _dense_J(m, d, w, n, mjm.nv)
+    frc = d.efc.force.numpy()[w][:n].astype(np.float64)
+    # the generalised constraint force is J^T efc_force whatever the cone (no force law needed)
+    qc = d.qfrc_constraint.numpy()[w].astype(np.float64)
+    jtf = J.T @ frc
+    if not np.allclose(qc, jtf, rtol=5e-3, atol=5e-3 * (1 + np.abs(jtf).max())):
+      acc.find(f"qfrc_constraint differs from J^T efc_force (max |d| {np.abs(qc - jtf).max():.3g}; {desc})", "solver.solve", "qfrc-constraint-vs-JTf", **replay)
+    acc.hit("qfrc_constraint==J^T.force checked")
+  if n and cone == "pyramidal":
+    # independent KKT residual in float64 (pyramidal / frictionless rows only: per-row force law of C24)
+    aref = d.efc.aref.numpy()[w][:n].astype(np.float64)
+    D = d.efc.D.numpy()[w][:n].astype(np.float64)
+    fl = d.efc.frictionloss.numpy()[w][:n].astype(np.float64)
+    ne, nf = int(d.ne.numpy()[w]), int(d.nf.numpy()[w])
+    jar = J @ qacc - aref
+    f = np.zeros(n)
+    for i in range(n):
+      if i < ne:
+        f[i] = -D[i] * jar[i]
+      elif i < ne + nf:
+        f[i] = float(np.clip(-D[i] * jar[i], -fl[i], fl[i]))
+      else:
+        f[i] = max(0.0, -D[i] * jar[i])
+    if M is None:
+      M = _mass_matrix(mjm, mjd)
+    grad = M @ qacc - d.qfrc_smooth.numpy()[w].astype(np.float64) - J.T @ f
+    gnorm = np.linalg.norm(grad) / (1 + np.linalg.norm(M @ qacc))
+    if gnorm > 2e-3:
+      acc.find(f"KKT residual of the returned qacc is {gnorm:.3g} (relative): qacc is not the optimum of the Gauss cost ({desc})", "solver.solve", "kkt-residual", **replay)
+    if not np.allclose(frc, f, rtol=5e-3, atol=5e-3 * (1 + np.abs(f).max())):
+      acc.find(f"reported efc_force differs from the force implied by qacc (max |d| {np.abs(frc - f).max():.3g}; {desc})", "solver._update_constraint", "implied-force", **replay)
+    acc.hit("kkt-checked" + ("-sparse" if m.is_sparse else ""))
+  return qacc, n
+
+
+START_MODES = ("zero", "near-optimum", "far", "warmstart-disabled")
+
+
+def _set_start(rng, mode, mjm, mjd):
+  """the solver's starting point: mujoco_warp starts at qacc_warmstart (or at qacc_smooth when warmstart is disabled); the optimum
+  of a strictly convex cost does not depend on it. Called after mj_forward(mjm, mjd) (mjd.qacc is MuJoCo's optimum)."""
+  import mujoco
+  s = 1 + np.abs(mjd.qacc).max()
+  if mode == "near-optimum":
+    mjd.qacc_warmstart[:] = mjd.qacc * (1 + 0.1 * rng.normal(size=mjm.nv)) + 0.05 * s * rng.normal(size=mjm.nv)
+  elif mode == "far":
+    mjd.qacc_warmstart[:] = mjd.qacc_smooth + 0.5 * s * rng.normal(size=mjm.nv)
+  elif mode == "warmstart-disabled":
+    mjm.opt.disableflags |= int(mujoco.mjtDisableBit.mjDSBL_WARMSTART)
+    mjd.qacc_warmstart[:] = 0
+  else:
+    mjd.qacc_warmstart[:] = 0
 
 
 def _run(ctx, ncases):
@@ -38,7 +155,10 @@ def _run(ctx, ncases):
       if mjm.jnt_type[j] == 0:
         mjd.qpos[mjm.jnt_qposadr[j] + 2] = rng.uniform(0.03, 0.3)
     mujoco.mj_forward(mjm, mjd)
-    warm = rng.random() < 0.5
+    # starting point of the solver, in rotation (qacc_warmstart of a fresh MjData is 0: without this every case starts at 0)
+    start = START_MODES[(c + ctx.seed) % len(START_MODES)]
+    _set_start(rng, start, mjm, mjd)
+    replay = dict(xml=xml, qpos=mjd.qpos.tolist(), qvel=mjd.qvel.tolist(), qacc_warmstart=mjd.qacc_warmstart.tolist(), start=start)
     m = mjw.put_model(mjm)
     if cone == "elliptic" and rng.random() < 0.75:
       # per-world impratio (a batched Option field): every world's optimum is that of ITS OWN cost
@@ -46,8 +166,6 @@ def _run(ctx, ncases):
       ratios = [1.0, float(rng.choice([4.0, 10.0, 25.0]))]
       m.opt.impratio_invsqrt = wp.array(np.array([1.0 / np.sqrt(r) for r in ratios], dtype=np.float32), dtype=float)
       d2 = mjw.put_data(mjm, mjd, nworld=2, naconmax=400, njmax=500)
-      if not warm:
-        d2.qacc_warmstart.zero_()
       mjw.forward(m, d2)
       acc.evals += 1
       if not (d2.overflow.numpy() & 0x1FF).any():
@@ -55,94 +173,182 @@ def _run(ctx, ncases):
           mjm.opt.impratio = r
           mref = mujoco.MjData(mjm)
           mref.qpos[:], mref.qvel[:] = mjd.qpos, mjd.qvel
-          if warm:
-            mref.qacc_warmstart[:] = mjd.qacc_warmstart
           mujoco.mj_forward(mjm, mref)
           qa = d2.qacc.numpy()[w].astype(np.float64)
-          if not np.allclose(qa, mref.qacc, rtol=5e-3, atol=5e-3 * (1 + np.abs(mref.qacc).max())):
-            acc.find(f"world {w} with its own impratio {r}: qacc differs from mj_forward at that impratio (max |d| {np.abs(qa - mref.qacc).max():.3g}; {solver}, {jac})", "solver.solve",
-                     "per-world-impratio", xml=xml, qpos=mjd.qpos.tolist(), qvel=mjd.qvel.tolist(), impratio=ratios)
+          if len(_world_contact_ids(d2, w)) != int(mref.ncon):
+            # a different contact SET (multi-contact pairs: property C04) is a different optimisation problem. The arbiter is then
+            # mujoco_warp's own solution of a single world whose model-wide impratio is r (same contacts, same rows)
+            acc.hit("contact-set-differs:per-world-impratio judged against a uniform single-world run")
+            m1 = mjw.put_model(mjm)
+            d1 = mjw.put_data(mjm, mjd, nworld=1, naconmax=400, njmax=500)
+            mjw.forward(m1, d1)
+            q1 = d1.qacc.numpy()[0].astype(np.float64)
+            if not (d1.overflow.numpy() & 0x1FF).any() and not np.allclose(qa, q1, rtol=5e-3, atol=5e-3 * (1 + np.abs(q1).max())):
+              acc.find(f"world {w} with its own impratio {r}: qacc differs from a single-world run with model-wide impratio {r} (max |d| {np.abs(qa - q1).max():.3g}; {solver}, {jac}, start={start})",
+                       "solver.solve", "per-world-impratio", impratio=ratios, **replay)
+          elif not np.allclose(qa, mref.qacc, rtol=5e-3, atol=5e-3 * (1 + np.abs(mref.qacc).max())):
+            acc.find(f"world {w} with its own impratio {r}: qacc differs from mj_forward at that impratio (max |d| {np.abs(qa - mref.qacc).max():.3g}; {solver}, {jac}, start={start})",
+                     "solver.solve", "per-world-impratio", impratio=ratios, **replay)
         mjm.opt.impratio = 1.0
       acc.hit("per-world-impratio")
       m = mjw.put_model(mjm)
     d = mjw.put_data(mjm, mjd, nworld=1, naconmax=200, njmax=500)
-    if not warm:
-      d.qacc_warmstart.zero_()
     mjw.forward(m, d)
     acc.evals += 1
-    acc.distinct.add((c, cone, solver, jac, warm))
+    acc.distinct.add((c, cone, solver, jac, start))
     if (d.overflow.numpy() != 0).any():
       acc.hit("overflow-skipped")
       continue
-    qacc = d.qacc.numpy()[0].astype(np.float64)
-    ref = mjd.qacc
-    scale = 1 + np.abs(ref).max()
-    same_contacts = int(d.nacon.numpy()[0]) == int(mjd.ncon)
-    same_frames = True
-    if same_contacts and mjd.ncon:
-      # the tangent axes of a contact frame are a free choice (only the normal is geometry); a pyramidal cone is not rotation
-      # invariant about the normal, so a different choice of tangents is a (slightly) different, equally valid problem
-      fw = d.contact.frame.numpy()[: mjd.ncon].reshape(-1, 9)
-      fm = np.array([c.frame for c in mjd.contact])
-      order_w = np.lexsort(d.contact.pos.numpy()[: mjd.ncon].T.round(5))
-      order_m = np.lexsort(np.array([c.pos for c in mjd.contact]).T.round(5))
-      same_frames = bool(np.allclose(fw[order_w], fm[order_m], atol=2e-3))
-    if not same_contacts:
-      # a different contact SET (multi-contact CCD pairs: property C04) is a different optimisation problem; the KKT residual
-      # below still judges the solver on mujoco_warp's own problem
-      acc.hit("contact-set-differs:mujoco-comparison-skipped")
-    elif not same_frames and cone == "pyramidal":
-      acc.hit("tangent-frames-differ:mujoco-comparison-skipped")
-    elif not np.allclose(qacc, ref, rtol=5e-3, atol=5e-3 * scale):
-      acc.find(f"qacc differs from mj_forward (max |d| {np.abs(qacc - ref).max():.3g}; {cone}, {solver}, {jac}, warmstart={warm})", "solver.solve", "qacc-vs-mujoco", xml=xml,
-               qpos=mjd.qpos.tolist(), qvel=mjd.qvel.tolist())
-    # independent KKT residual in float64 (pyramidal / frictionless rows only: per-row force law of C24)
-    n = int(d.nefc.numpy()[0])
-    if n and cone == "pyramidal" and not m.is_sparse:
-      J = d.efc.J.numpy()[0][:n, : mjm.nv].astype(np.float64)
-      aref = d.efc.aref.numpy()[0][:n].astype(np.float64)
-      D = d.efc.D.numpy()[0][:n].astype(np.float64)
-      fl = d.efc.frictionloss.numpy()[0][:n].astype(np.float64)
-      ne, nf = int(d.ne.numpy()[0]), int(d.nf.numpy()[0])
-      jar = J @ qacc - aref
-      f = np.zeros(n)
-      for i in range(n):
-        if i < ne:
-          f[i] = -D[i] * jar[i]
-        elif i < ne + nf:
-          f[i] = float(np.clip(-D[i] * jar[i], -fl[i], fl[i]))
-        else:
-          f[i] = max(0.0, -D[i] * jar[i])
-      M = np.zeros((mjm.nv, mjm.nv))
-      for k in range(mjm.nv):
-        e = np.zeros(mjm.nv); e[k] = 1
-        col = np.zeros(mjm.nv); mujoco.mj_mulM(mjm, mjd, col, e); M[:, k] = col
-      grad = M @ qacc - d.qfrc_smooth.numpy()[0].astype(np.float64) - J.T @ f
-      gnorm = np.linalg.norm(grad) / (1 + np.linalg.norm(M @ qacc))
-      if gnorm > 2e-3:
-        acc.find(f"KKT residual of the returned qacc is {gnorm:.3g} (relative): qacc is not the optimum of the Gauss cost", "solver.solve", "kkt-residual", xml=xml,
-                 qpos=mjd.qpos.tolist(), qvel=mjd.qvel.tolist())
-      frc = d.efc.force.numpy()[0][:n].astype(np.float64)
-      if not np.allclose(frc, f, rtol=5e-3, atol=5e-3 * (1 + np.abs(f).max())):
-        acc.find(f"reported efc_force differs from the force implied by qacc (max |d| {np.abs(frc - f).max():.3g})", "solver._update_constraint", "implied-force", xml=xml,
-                 qpos=mjd.qpos.tolist(), qvel=mjd.qvel.tolist())
-      acc.hit("kkt-checked")
+    _, n = _judge(acc, mjm, mjd, m, d, 0, cone, f"{cone}, {solver}, {jac}, start={start}, nv={mjm.nv}", replay)
     acc.hit(f"{solver}-{cone}")
-    acc.sample({"cone": cone, "solver": solver, "jacobian": jac, "warmstart": warm, "nefc": n})
+    acc.hit(f"start:{start}")
+    acc.sample({"cone": cone, "solver": solver, "jacobian": jac, "start": start, "nefc": n})
   return acc
 
 
-RULE = ("random trees over a floor with limits and friction loss, both cones, Newton/CG, dense/sparse, with and without warmstart, tight tolerance; qacc vs mujoco.mj_forward; for pyramidal dense "
-        "cases an independent float64 KKT residual M a - qfrc_smooth - J^T f(J a - aref) with the row force law and the equality of reported and implied forces; distinct = option tuples")
+# ---------------------------------------------------------------------------------------------------------------------------
+# size sweep. solver.py and io.py choose the launch geometry, the storage and the factorisation on the HOST from the model size:
+#   nv <= 32 plain tile Cholesky | nv > 32 blocked Cholesky on a padded matrix (+1 augmented column for Newton)
+#   jacobian AUTO: dense for nv <= 32, sparse above | put_model rejects dense nv > 60
+#   dense: nv <= 50 one thread per constraint row (blocks of 50 dofs), jv fused into the line search
+#          nv  > 50 ceil(nv/20) threads per row with atomic accumulation (last block partial unless nv = 60), separate jv kernel
+# The random trees above have nv <= ~30 and see only the first regime. The sweep builds a scene with a prescribed nv for every
+# regime, each quick run, with every dof (in particular the last ones) carrying constraint rows and a starting point that is
+# non-zero in every dof.
+SIZE_CLASSES = (
+  ("dense-33..50", "dense", 33, 50),
+  ("dense-51..59", "dense", 51, 59),
+  ("dense-60", "dense", 60, 60),
+  ("auto-33..70", "auto", 33, 70),
+  ("sparse-61..72", "sparse", 61, 72),
+  ("dense-26..32", "dense", 26, 32),
+)
+SWEEP_COMBOS = (("Newton", "pyramidal"), ("CG", "pyramidal"), ("Newton", "elliptic"), ("CG", "elliptic"))
+
+
+def _wide_scene(rng, nv, option):
+  """a forest with exactly nv dofs: free spheres/capsules lying on (slightly inside) the floor and hanging chains of limited hinge/slide
+  joints with friction loss; the order of the blocks in the dof vector is random. Every dof carries at least one constraint row
+  (contact rows for the free bodies, friction-loss rows for the chain joints)."""
+  nfree = int(rng.integers(max(1, nv // 12), nv // 6 + 1))
+  rest = nv - 6 * nfree
+  blocks = [("free", 6)] * nfree
+  while rest > 0:
+    k = int(min(rest, rng.integers(1, 5)))
+    blocks.append(("chain", k))
+    rest -= k
+  order = rng.permutation(len(blocks))
+  out = []
+  for slot, bi in enumerate(order):
+    kind, k = blocks[bi]
+    x, y = 0.4 * (slot % 6), 0.4 * (slot // 6)
+    if kind == "free":
+      r = float(rng.uniform(0.06, 0.12))
+      z = r - float(rng.uniform(0.0005, 0.01))
+      q = rng.normal(size=4)
+      q /= np.linalg.norm(q)
+      out.append(f'<body pos="{x:.3f} {y:.3f} {z:.4f}" quat="{q[0]:.5f} {q[1]:.5f} {q[2]:.5f} {q[3]:.5f}"><freejoint/>'
+                 f'<geom type="sphere" size="{r:.4f}" mass="{rng.uniform(0.3, 3.0):.3f}" friction="{rng.uniform(0.3, 1.2):.2f}"/></body>')
+    else:
+      inner = ""
+      for i in range(k):
+        jt = "hinge" if rng.random() < 0.7 else "slide"
+        ax = rng.normal(size=3)
+        ax /= np.linalg.norm(ax)
+        rg = "-0.3 0.3" if jt == "hinge" else "-0.05 0.05"
+        inner = (f'<body pos="0.02 0 -0.12"><joint type="{jt}" axis="{ax[0]:.4f} {ax[1]:.4f} {ax[2]:.4f}" limited="true" range="{rg}" '
+                 f'frictionloss="{rng.uniform(0.05, 0.4):.3f}" armature="0.01"/>'
+                 f'<geom type="capsule" size="0.02" fromto="0 0 0 0.02 0 -0.12" mass="{rng.uniform(0.2, 1.0):.3f}" contype="0" conaffinity="0"/>{inner}</body>')
+      out.append(f'<body pos="{x:.3f} {y:.3f} 1.5">{inner}</body>')
+  return (f'<mujoco><compiler angle="radian"/><option {option}/><worldbody><geom name="floor" type="plane" size="5 5 .1"/>\n'
+          + "\n".join(out) + "\n</worldbody></mujoco>")
+
+
+def _sweep(ctx, acc, ncases):
+  import mujoco
+  import mujoco_warp as mjw
+  rng = np.random.default_rng(ctx.seed * 1000 + 606)
+  for c in range(ncases):
+    k, j = c % len(SIZE_CLASSES), c // len(SIZE_CLASSES)
+    name, jac, lo, hi = SIZE_CLASSES[k]
+    # (solver, cone, warmstart disabled): 8 combinations; every class walks through all of them in 8 rounds (5 is coprime to 8)
+    rot = (k + ctx.seed + 5 * j) % (2 * len(SWEEP_COMBOS))
+    solver, cone = SWEEP_COMBOS[rot % len(SWEEP_COMBOS)]
+    disabled = rot >= len(SWEEP_COMBOS)
+    nv = int(rng.integers(lo, hi + 1))
+    xml = _wide_scene(rng, nv, f'cone="{cone}" solver="{solver}" jacobian="{jac}" iterations="200" ls_iterations="50" tolerance="1e-10" timestep="0.004"')
+    mjm = mujoco.MjModel.from_xml_string(xml)
+    assert mjm.nv == nv
+    mjd = mujoco.MjData(mjm)
+    for j in range(mjm.njnt):
+      if mjm.jnt_type[j] != 0:
+        mjd.qpos[mjm.jnt_qposadr[j]] = rng.normal() * (0.3 if mjm.jnt_type[j] == 3 else 0.05)  # some limits violated
+    mjd.qvel[:] = 0.3 * rng.normal(size=nv)
+    mujoco.mj_forward(mjm, mjd)
+    M = _mass_matrix(mjm, mjd)
+    # worlds of one batch differ ONLY in the solver's starting point; the optimum may not
+    if disabled:
+      _set_start(rng, "warmstart-disabled", mjm, mjd)
+      starts = ["warmstart-disabled"]
+      ws = np.zeros((1, nv))
+    else:
+      starts = ["zero", "near-optimum", "far"]
+      ws = np.zeros((3, nv))
+      for w, s in enumerate(starts):
+        _set_start(rng, s, mjm, mjd)
+        ws[w] = mjd.qacc_warmstart
+      mjd.qacc_warmstart[:] = 0
+    m = mjw.put_model(mjm)
+    d = mjw.put_data(mjm, mjd, nworld=len(starts), naconmax=len(starts) * (nv // 6 + 8) * 4, njmax=8 * nv + 64)
+    import warp as wp
+    wp.copy(d.qacc_warmstart, wp.array(ws.astype(np.float32), dtype=float))
+    mjw.forward(m, d)
+    acc.evals += 1
+    acc.distinct.add(("sweep", c, name, nv, solver, cone, disabled))
+    acc.hit(f"size:{name}" + ("(sparse)" if m.is_sparse else "(dense)"))
+    if (d.overflow.numpy() != 0).any():
+      acc.hit("overflow-skipped")
+      continue
+    replay = dict(xml=xml, qpos=mjd.qpos.tolist(), qvel=mjd.qvel.tolist())
+    qs = []
+    for w, s in enumerate(starts):
+      # the last dofs must really be constrained and started away from zero, otherwise the case says nothing about the tail
+      q, n = _judge(acc, mjm, mjd, m, d, w, cone, f"{cone}, {solver}, {name}, nv={nv}, start={s}", dict(replay, qacc_warmstart=ws[w].tolist(), start=s), M=M)
+      qs.append(q)
+      acc.hit(f"start:{s}")
+    n = int(d.nefc.numpy()[0])
+    if n:
+      J = _dense_J(m, d, 0, n, nv)
+      tail = np.abs(J[:, nv - (nv % 20 or 20):]).max() > 0 and np.abs(J[:, -1]).max() > 0
+      acc.hit("tail-dofs-constrained" if tail else "tail-dofs-unconstrained")
+    scale = 1 + np.abs(mjd.qacc).max()
+    for w in range(1, len(starts)):
+      if not np.allclose(qs[w], qs[0], rtol=5e-3, atol=5e-3 * scale):
+        acc.find(f"the solution depends on the solver's starting point: start={starts[w]} and start={starts[0]} differ by {np.abs(qs[w] - qs[0]).max():.3g} in qacc "
+                 f"({cone}, {solver}, {name}, nv={nv}); a strictly convex cost has one minimiser", "solver.solve", "start-dependence", qacc_warmstart=ws[w].tolist(), **replay)
+      acc.hit("start-invariance-checked")
+    acc.hit(f"sweep:{solver}-{cone}")
+    acc.sample({"sweep": name, "nv": nv, "cone": cone, "solver": solver, "sparse": bool(m.is_sparse), "starts": starts, "nefc": n}, limit=6)
+  return acc
+
+
+RULE = ("(a) random trees (nv <= ~30) over a floor with limits and friction loss, both cones, Newton/CG, dense/sparse, tight tolerance, the solver's starting point in rotation (qacc_warmstart zero / near the "
+        "optimum / far from it / warmstart disabled = qacc_smooth); (b) size sweep: a forest with a prescribed nv for every host-side size regime of solver.py/io.py (dense 26..32, dense 33..50, dense 51..59, "
+        "dense 60, AUTO 33..70 -> sparse, sparse 61..72), every dof constrained, dof blocks in random order, solver x cone in rotation, one batch whose worlds differ only in the starting point. Judged per "
+        "world: qacc vs mujoco.mj_forward (when contact set and tangent frames agree); for pyramidal cases (dense AND sparse storage) an independent float64 KKT residual M a - qfrc_smooth - J^T f(J a - aref) "
+        "with the row force law and the equality of reported and implied forces; qfrc_constraint = J^T efc_force (any cone); the solutions of the worlds of one batch agree (unique minimiser); "
+        "distinct = option tuples")
 
 
 def correspondence(ctx):
   from harness.corr import func_corr
   fc = func_corr.run(["solver._eval_pt", "solver._eval_cost", "solver._eval_pt_direct", "solver._eval_frictionloss_pt"], ncases=96 if ctx.thorough else 32, seed=ctx.seed)
   acc = _run(ctx, 50 if ctx.thorough else 10)
+  _sweep(ctx, acc, 36 if ctx.thorough else 2 * len(SIZE_CLASSES))
   return result(acc, RULE, fc=fc)
 
 
 def search(ctx, breaks):
   acc = _run(ctx, 120)
-  return search_result(acc, "mujoco.mj_forward qacc + independent float64 KKT residual")
+  _sweep(ctx, acc, 48)
+  return search_result(acc, "mujoco.mj_forward qacc + independent float64 KKT residual + start-point invariance, over all host-side size regimes")
